@@ -163,6 +163,27 @@ class MATCH(_Interned):
         return "MATCH%r" % (self.groups,)
 
 
+class K(_Interned):
+    """a container of a known Python type whose content (and emptiness) is unknown: K("list") / K("set")"""
+    __slots__ = ("kind",)
+
+    def __new__(cls, kind):
+        return cls._get(("K", kind), lambda o: setattr(o, "kind", kind))
+
+    def __repr__(self):
+        return "K(%s)" % self.kind
+
+
+def kind_of(v):
+    if isinstance(v, K):
+        return v.kind
+    if isinstance(v, FL):
+        return "list"
+    if isinstance(v, FS):
+        return "set"
+    return None
+
+
 def _has_call(node):
     r = getattr(node, "_vt_has_call", None)
     if r is None:
@@ -187,7 +208,7 @@ def truth(v):
         return 'T' if v.items else 'F'
     if isinstance(v, (METH, OBJV, MATCH)):
         return 'T'
-    return 'U'
+    return 'U'     # (also K: a container whose emptiness is unknown)
 
 
 def inv(v):
@@ -373,6 +394,10 @@ class Interp:
             f = e.func
             if isinstance(f, ast.Name) and f.id == "bool" and e.args:
                 return truth(self.ev(e.args[0], st, ctx))
+            if isinstance(f, ast.Name) and f.id in ("sorted", "list") and f.id not in ctx.locs:
+                return K("list")
+            if isinstance(f, ast.Name) and f.id in ("set", "frozenset") and f.id not in ctx.locs:
+                return K("set")
             if isinstance(f, ast.Name) and f.id in IDENTITY_FUNCS and len(e.args) > IDENTITY_FUNCS[f.id]:
                 v = self.ev(e.args[IDENTITY_FUNCS[f.id]], st, ctx)
                 return v if isinstance(v, D) else 'N'      # a decoded / decrypted payload is never None
@@ -431,6 +456,10 @@ class Interp:
                         return base.d[k.v]
                     return self.ev(e.args[1], st, ctx) if len(e.args) > 1 else C(None)
             return 'U'
+        if isinstance(e, ast.ListComp):
+            return K("list")
+        if isinstance(e, (ast.SetComp, ast.Set)):
+            return K("set")
         if isinstance(e, ast.Compare) and len(e.ops) == 1:
             l = self.ev(e.left, st, ctx)
             r = self.ev(e.comparators[0], st, ctx)
@@ -439,7 +468,7 @@ class Interp:
                 t = truth(l)
                 if isinstance(l, C):
                     res = 'T' if l.v is None else 'F'
-                elif t == 'T' or l == 'N' or isinstance(l, (D, FS, FL, TUP, METH)):
+                elif t == 'T' or l == 'N' or isinstance(l, (D, FS, FL, TUP, METH, K)):
                     res = 'F'
                 else:
                     res = 'U'
@@ -597,6 +626,13 @@ class Interp:
                         st[('e', 'bound')] = 'T'
                     elif st.get(('e', 'bound')) != 'T':
                         self.add_viol("tx-before-bind", t)
+                    # docs/server-protocol.rst: `add` and a `close` that does not name its mailbox refer to the mailbox opened on
+                    # THIS connection; `release` without a nameplate to the one claimed on this connection
+                    if t == "add" and st.get(('e', 'mb_open')) != 'T':
+                        self.add_viol("tx-protocol", "`add` is sent on a connection on which the mailbox has not been opened")
+                    if t == "close" and st.get(('e', 'mb_open')) != 'T' and (kwvals.get("mailbox") is None or kwvals.get("mailbox") == C(None)):
+                        self.add_viol("tx-protocol", "`close` without a mailbox id is sent on a connection on which the mailbox has not been "
+                                                     "opened (the server answers with an error and never confirms)")
                     if t == "close":
                         # C08: the mood sent with `close` matches the verdict the application will get
                         mood = kwvals.get("mood")
@@ -971,9 +1007,17 @@ class Interp:
     def _assign_attr(self, s2, cls, attr, v):
         k = ('a', cls.name, attr)
         if k not in s2:
+            if isinstance(v, D) and len(v.d) <= 4:
+                # a decoded message kept in an attribute: from now on the attribute is tracked (its emptiness and keys matter)
+                s2 = s2.cp()
+                s2[k] = v
             return s2
         vv = v
         cur = s2[k]
+        if isinstance(vv, D) and len(vv.d) <= 4 and not isinstance(cur, (FL, FS)) and (cls.name, attr) not in TRACKED_DICTS:
+            s2 = s2.cp()
+            s2[k] = vv
+            return s2
         if isinstance(cur, FL):
             vv = v if isinstance(v, FL) else 'U'
         elif isinstance(cur, FS) or isinstance(vv, D):
@@ -982,7 +1026,7 @@ class Interp:
             s2 = s2.cp()
             s2[k] = vv if isinstance(vv, C) and isinstance(vv.v, int) else 'U'
             return s2
-        if vv in ('U', 'N'):
+        if vv in ('U', 'N') or isinstance(vv, K):
             vv = 'T'   # T3: values stored into nullable attributes are non-empty objects
         if isinstance(vv, C) and not (vv.v is None or isinstance(vv.v, bool)):
             vv = 'T' if vv.v else 'F'
@@ -1023,8 +1067,63 @@ class Interp:
             return forks + self._run_simple(stmt, st, ctx)
         return self._run_simple(stmt, st, ctx)
 
+    SET_OPS = (ast.BitOr, ast.BitAnd, ast.BitXor, ast.Sub)
+
+    def _container_type_error(self, stmt, st, ctx):
+        """`a | b`, `a & b`, `a ^ b`, `a - b` (and their augmented forms) with an operand that is a list: TypeError"""
+        cand = getattr(stmt, "_vt_setops", None)
+        if cand is None:
+            if isinstance(stmt, (ast.If, ast.While)):
+                roots = [stmt.test]
+            elif isinstance(stmt, (ast.For, ast.With, ast.Try, ast.FunctionDef, ast.ClassDef)):
+                roots = []
+            else:
+                roots = [stmt]
+            cand = [n for root in roots for n in ast.walk(root)
+                    if isinstance(n, (ast.BinOp, ast.AugAssign)) and isinstance(n.op, self.SET_OPS)]
+            try:
+                stmt._vt_setops = cand
+            except AttributeError:
+                pass
+        if not cand:
+            return None
+        for root in (0,):
+            for n in cand:
+                if isinstance(n, ast.BinOp) and isinstance(n.op, self.SET_OPS):
+                    a, b = kind_of(self.ev(n.left, st, ctx)), kind_of(self.ev(n.right, st, ctx))
+                elif isinstance(n, ast.AugAssign) and isinstance(n.op, self.SET_OPS):
+                    a, b = kind_of(self.ev(n.target, st, ctx)), kind_of(self.ev(n.value, st, ctx))
+                else:
+                    continue
+                if (a == "list" and (b is not None or isinstance(n.op, (ast.BitOr, ast.BitAnd, ast.BitXor)))) or (b == "list" and a is not None):
+                    return "%s %s %s" % (a or "?", type(n.op).__name__, b or "?")
+        return None
+
     def _run_simple(self, stmt, st, ctx):
         locs = ctx.locs
+        te = self._container_type_error(stmt, st, ctx)
+        if te:
+            where = self.stack[-1] if self.stack else "?"
+            self.add_viol("Raise", "%s: TypeError (%s): %s" % (where, te, ast.unparse(stmt)[:70]), site="%s:%d" % (ctx.cls.file, stmt.lineno))
+            st = st.cp()
+            st[('e', 'failed')] = 'T'
+            return [(st, locs, ('raise', 'TypeError'))]
+        # v = d.pop("k"[, default])  on a local abstract dict: the key is taken out
+        if isinstance(stmt, ast.Assign) and len(stmt.targets) == 1 and isinstance(stmt.targets[0], ast.Name) and isinstance(stmt.value, ast.Call) \
+                and isinstance(stmt.value.func, ast.Attribute) and stmt.value.func.attr == "pop" and isinstance(stmt.value.func.value, ast.Name) \
+                and isinstance(locs.get(stmt.value.func.value.id), D) and stmt.value.args and isinstance(stmt.value.args[0], ast.Constant):
+            dname = stmt.value.func.value.id
+            d = locs[dname]
+            key = stmt.value.args[0].value
+            l2 = dict(locs)
+            if key in d.d:
+                l2[stmt.targets[0].id] = d.d[key]
+                l2[dname] = D({k_: v_ for k_, v_ in d.d.items() if k_ != key})
+                return [(st, l2, None)]
+            if len(stmt.value.args) > 1:
+                l2[stmt.targets[0].id] = self.ev(stmt.value.args[1], st, ctx)
+                return [(st, l2, None)]
+            return [(st, locs, ('raise', 'KeyError'))]
         if isinstance(stmt, ast.Expr):
             return [(s, locs, o) for (s, v, o) in self.eval_expr(stmt.value, st, ctx)]
         if isinstance(stmt, ast.Return):
@@ -1359,7 +1458,8 @@ class Env:
 
     def __init__(self, phases=("pake", "version", "0"), dilate=False, reentrant=False,
                  postclose_helper=False, budget=400000, name="quick", dilation_manager=False, api=None,
-                 time_budget=900.0, budget_after_violation=40000):
+                 time_budget=900.0, budget_after_violation=40000, peer_can_dilate=True):
+        self.peer_can_dilate = peer_can_dilate
         self.phases = tuple(phases)
         self.dilate = dilate
         self.dilation_manager = dilation_manager
@@ -1374,7 +1474,8 @@ class Env:
     def describe(self):
         return {"name": self.name, "phases": list(self.phases), "dilation_sends": self.dilate,
                 "reentrant_delegate": self.reentrant, "helper_after_close": self.postclose_helper,
-                "dilation_manager_in_product": self.dilation_manager, "api_calls": list(self.api) + ["close"],
+                "dilation_manager_in_product": self.dilation_manager, "peer_can_dilate": self.peer_can_dilate,
+                "api_calls": list(self.api) + ["close"],
                 "state_budget": self.budget}
 
 
@@ -1453,6 +1554,8 @@ class Explorer:
         if not self.env.dilation_manager or side != "SIDE-THEIRS":
             return 'T'
         if phase == "version":
+            if not self.env.peer_can_dilate:
+                return D({"app_versions": 'U'})       # an old peer: no `can-dilate` entry at all
             return D({"app_versions": 'U', "can-dilate": 'U'})
         if phase == "dilate-0":
             return D({"type": C("please"), "side": 'T'})
@@ -1591,6 +1694,18 @@ class Explorer:
                 for s2 in succ:
                     if s2.get(('e', 'failed')) == 'T':
                         continue
+                    if self.env.dilation_manager and ('m', 'Manager') in s2 and s2.get(('e', 'ev_got_versions')) == 'T' \
+                            and s2[('m', 'Manager')] == A_MANAGER_INITIAL(I):
+                        # C17: once the peer's versions are known and dilate() was called, the Manager has been told (it left its
+                        # initial state: it either asks the peer to dilate or fails the pending connect()s)
+                        n0 = len(I.viol)
+                        I.stack[:] = [name]
+                        I.add_viol("versions-not-forwarded", "the application has the peer's versions and dilate() was called, but the dilation "
+                                   "Manager is still %s: it never learns whether the peer can dilate" % s2[('m', 'Manager')])
+                        if len(I.viol) > n0:
+                            kk = list(I.viol)[-1]
+                            I.viol[kk].state_key = s.key()
+                            I.viol[kk].event = name
                     if name in POST_CLOSING and s2[('m', 'Boss')] not in self.closing_states:
                         I.stack[:] = [name]
                         n0 = len(I.viol)
@@ -1679,6 +1794,10 @@ class Explorer:
             v.path = self.path(r, v.state_key) + [v.event] if v.state_key is not None else []
 
 
+def A_MANAGER_INITIAL(I):
+    return I.ALL["Manager"].initial
+
+
 # events after which the wormhole must be closing or closed (C08: the server said so / the application said so)
 POST_CLOSING = ("srv.error", "srv.welcome-error", "api.close")
 
@@ -1693,6 +1812,8 @@ ENVS = {
     "phases-unknown": Env(phases=("pake", "version", "0", "weird"), name="phases-unknown"),
     "dilation": Env(phases=("pake", "version", "dilate-0", "dilate-1"), dilation_manager=True, api=("set_code",), name="dilation",
                     budget=120000, time_budget=240.0),
+    "dilation-oldpeer": Env(phases=("pake", "version", "dilate-0"), dilation_manager=True, api=("set_code",), name="dilation-oldpeer",
+                            budget=120000, time_budget=240.0, peer_can_dilate=False),
     "dilation-full": Env(phases=("pake", "version", "dilate-0", "dilate-1"), dilation_manager=True, name="dilation-full"),
 }
 
